@@ -239,6 +239,7 @@ pub fn run_prop(instances: &[Inst], o: &PropOpts) -> PropOutcome {
         }
         hs.into_iter().map(|h| h.join().unwrap()).collect()
     });
+    let results_keep: Vec<(usize, Merged)> = results.clone();
     for (idx, m) in results {
         let (inst, plan) = &work[idx];
         if m.tasks == 0 && m.error.is_none() {
@@ -304,6 +305,51 @@ pub fn run_prop(instances: &[Inst], o: &PropOpts) -> PropOutcome {
             }
         }
     }
+    // C08, relational oracle over the adversary family: the most steps a load needs must not
+    // keep growing with the number of complete interfering writes (a retry loop adds at least
+    // three steps per write; the real algorithm reaches its maximum with two).
+    let mut growth = Vec::new();
+    if o.prop == "C08" && violations == 0 {
+        let mut by_group: BTreeMap<String, BTreeMap<u32, (u64, Vec<u16>, &'static str, String)>> = BTreeMap::new();
+        for (idx, m) in &results_keep {
+            let (inst, plan) = &work[*idx];
+            if let Some(rest) = inst.name.strip_prefix("adv") {
+                if let Some((k, group)) = rest.split_once(':') {
+                    if let Ok(k) = k.parse::<u32>() {
+                        by_group
+                            .entry(format!("{}[{}]", group, plan.build))
+                            .or_default()
+                            .insert(k, (m.max_load.0, m.max_load.1.clone(), plan.build, inst.name.clone()));
+                    }
+                }
+            }
+        }
+        for (group, ks) in &by_group {
+            let row: Vec<String> = ks.iter().map(|(k, v)| format!("K={}:{}", k, v.0)).collect();
+            growth.push(format!("{} max own steps of a load by number of interfering writes: {}", group, row.join(" ")));
+            if let (Some(m2), Some(m4)) = (ks.get(&2), ks.get(&4)) {
+                if m4.0 > m2.0 {
+                    violations += 1;
+                    let v = JViol {
+                        instance: m4.3.clone(),
+                        property: "C08".into(),
+                        oracle: "steps-growth".into(),
+                        message: format!(
+                            "a load needs up to {} own steps with 4 interfering complete writes but only {} with 2: its cost grows with what other threads do (it retries)",
+                            m4.0, m2.0
+                        ),
+                        choices: m4.1.clone(),
+                        cfg: "p=0,s=0,f=0,model=M1,step_cap=5000".into(),
+                        trace: vec![],
+                        deterministic: true,
+                    };
+                    let path = write_replay(&o.replay_dir, m4.2, &v);
+                    println!("VIOLATION property=C08 replay={}", path);
+                    println!("  instance={} oracle=steps-growth {}", v.instance, v.message);
+                }
+            }
+        }
+    }
     for l in known_lines.values() {
         println!("{}", l);
     }
@@ -318,6 +364,7 @@ pub fn run_prop(instances: &[Inst], o: &PropOpts) -> PropOutcome {
             "samples": samples,
             "other_property_violations_seen": total.others,
             "known_findings_hit": known_lines.values().collect::<Vec<_>>(),
+            "load_steps_by_interfering_writes": growth,
         }
     });
     PropOutcome { violations, machinery_errors: errors, evidence: ev }
